@@ -4,6 +4,8 @@ CONSTANTS
   KS = {"r_class", "r_id", "r_attr", "r_pseudo", "r_desc", "d_ident", "d_str", "d_num", "d_hex", "d_urlq", "d_url", "d_call", "media", "supports", "fontface", "keyframes", "comment"}
   CS = {"ascii", "latin1", "bmpsym", "astral", "astralsym", "private", "combining", "dquote", "quotes2", "backslash", "control", "newline", "space"}
   SH = {"mid"}
+  CT = {}
+  FN = {}
 INVARIANT Generated
 INVARIANT EmitVec
 CHECK_DEADLOCK FALSE
